@@ -962,8 +962,8 @@ class Fxp():
             if np.issubdtype(self.vdtype, np.integer) and self.n_frac > 0:
                 self.vdtype = float  # change to float type if Fxp has fractional part
 
-        # check inaccuracy
-        if not np.equal(val, new_val/conv_factor).all() :
+        # check inaccuracy (an index that selects no element stores nothing, hence nothing inexact)
+        if not (index is not None and np.size(self.val[index]) == 0) and not np.equal(val, new_val/conv_factor).all() :
             self.status['inaccuracy'] = True
             self._run_callbacks('on_status_inaccuracy')
 
